@@ -74,7 +74,9 @@ func normName(s string) string { return strings.ToLower(strings.ReplaceAll(s, "_
 
 // getSite is one `if v, ok := ARR.Get(i); ok { ... } [else { return err }]` of a positional decoder.
 type getSite struct {
-	Arr      string
+	Arr      string       // printed array expression (messages only)
+	ArrObj   types.Object // the array variable
+	Top      bool         // the array is the decoded top-level tuple (`var arr _array`, filled by Decode), not a nested one
 	Index    int64
 	If       *ast.IfStmt
 	Var      types.Object
@@ -110,7 +112,8 @@ func collectGetSites(p *core.Prog, f *core.Func, body ast.Node) []getSite {
 			if !isC {
 				return true
 			}
-			gs := getSite{Arr: core.ExprStr(sel.X), Index: idx, If: is, Var: core.ObjOf(info, as.Lhs[0])}
+			gs := getSite{Arr: core.ExprStr(sel.X), ArrObj: core.ObjOf(info, sel.X), Index: idx, If: is, Var: core.ObjOf(info, as.Lhs[0])}
+			gs.Top = declaredWithoutValue(f, gs.ArrObj)
 			// else branch returns an error
 			if is.Else != nil {
 				ast.Inspect(is.Else, func(k ast.Node) bool {
@@ -299,7 +302,7 @@ func C11(r *core.Report) {
 			var sub []getSite
 			for _, s := range all {
 				for _, fld := range s.Fields {
-					if isFieldOf(pkg.Types, nested, fld) && s.Arr != "arr" {
+					if isFieldOf(pkg.Types, nested, fld) && !s.Top {
 						sub = append(sub, s)
 						break
 					}
@@ -360,7 +363,7 @@ func c11CheckType(r *core.Report, f *core.Func, tn string, schema map[string][]s
 	}
 	// keep only the sites of the outermost array of this type (same Arr, indices 0..n-1, first occurrence of each index)
 	byIdx := map[int64]getSite{}
-	arrName := ""
+	var arrName types.Object
 	for _, s := range sites {
 		touches := false
 		for _, fld := range s.Fields {
@@ -371,10 +374,10 @@ func c11CheckType(r *core.Report, f *core.Func, tn string, schema map[string][]s
 		if !touches && !(s.Index == 0 && len(s.Fields) == 0) {
 			continue
 		}
-		if arrName == "" {
-			arrName = s.Arr
+		if arrName == nil {
+			arrName = s.ArrObj
 		}
-		if s.Arr != arrName {
+		if s.ArrObj != arrName {
 			continue
 		}
 		if _, dup := byIdx[s.Index]; !dup {
@@ -464,20 +467,36 @@ func c11MarshalAgreement(r *core.Report, mf *core.Func, tn string, sites []getSi
 	info := mf.Pkg.TypesInfo
 	read := map[int64][]string{}
 	for _, s := range sites {
-		if s.Arr == "arr" {
+		if s.Top {
 			if _, dup := read[s.Index]; !dup {
 				read[s.Index] = s.Fields
 			}
 		}
 	}
 	n := 0
+	// the array handed to the encoder in the return statement
+	var topArr types.Object
+	ast.Inspect(mf.Body, func(m ast.Node) bool {
+		if rs, ok := m.(*ast.ReturnStmt); ok && len(rs.Results) == 1 {
+			if c, ok := core.Unparen(rs.Results[0]).(*ast.CallExpr); ok && len(c.Args) == 1 {
+				if o, isV := core.ObjOf(info, c.Args[0]).(*types.Var); isV && !o.IsField() {
+					topArr = o
+				}
+			}
+		}
+		return true
+	})
 	ast.Inspect(mf.Body, func(m ast.Node) bool {
 		c, ok := m.(*ast.CallExpr)
 		if !ok || len(c.Args) != 2 {
 			return true
 		}
 		sel, ok := core.Unparen(c.Fun).(*ast.SelectorExpr)
-		if !ok || sel.Sel.Name != "Set" || core.ExprStr(sel.X) != "arr" {
+		if !ok || sel.Sel.Name != "Set" {
+			return true
+		}
+		// arr.Set(i, v) on the array that is encoded as the result (nested arrays - meta, shredding - are values of it)
+		if topArr == nil || core.ObjOf(info, sel.X) != topArr {
 			return true
 		}
 		idx, isC := core.ConstInt(info, c.Args[0])
@@ -488,7 +507,7 @@ func c11MarshalAgreement(r *core.Report, mf *core.Func, tn string, sites []getSi
 		field := ""
 		ast.Inspect(c.Args[1], func(k ast.Node) bool {
 			if s2, ok := k.(*ast.SelectorExpr); ok && field == "" {
-				if id, ok := core.Unparen(s2.X).(*ast.Ident); ok && id.Name == "x" {
+				if id, ok := core.Unparen(s2.X).(*ast.Ident); ok && mf.RecvObj() != nil && info.Uses[id] == types.Object(mf.RecvObj()) {
 					field = s2.Sel.Name
 				}
 			}
@@ -509,7 +528,7 @@ func c11MarshalAgreement(r *core.Report, mf *core.Func, tn string, sites []getSi
 								}
 								ast.Inspect(rhs, func(q ast.Node) bool {
 									if s2, ok := q.(*ast.SelectorExpr); ok && field == "" {
-										if id, ok := core.Unparen(s2.X).(*ast.Ident); ok && id.Name == "x" {
+										if id, ok := core.Unparen(s2.X).(*ast.Ident); ok && mf.RecvObj() != nil && info.Uses[id] == types.Object(mf.RecvObj()) {
 											field = s2.Sel.Name
 										}
 									}
@@ -778,4 +797,29 @@ func c11NoExtraRejection(r *core.Report) {
 		r.Check(bad == "", rule, gk.Key+"#rejects-only-short-input", posP(r, gk.Pos()), "GetKind fails only for inputs too short to carry a kind",
 			"GetKind returns an error at "+bad+", a test on the content of the node: nodes the schema-driven decoder accepts (e.g. with a trailing optional field omitted) are rejected by DecodeAny and the indexers")
 	}
+}
+
+// declaredWithoutValue: o is declared by `var o T` (no initial value) in f.
+func declaredWithoutValue(f *core.Func, o types.Object) bool {
+	if o == nil {
+		return false
+	}
+	info := f.Pkg.TypesInfo
+	found := false
+	for i := 0; f.Root().ParamObj(i) != nil; i++ {
+		if types.Object(f.Root().ParamObj(i)) == o {
+			return true // the tuple is handed in by the caller (fromCBORArray(arr))
+		}
+	}
+	ast.Inspect(f.Root().Body, func(n ast.Node) bool {
+		if vs, ok := n.(*ast.ValueSpec); ok && len(vs.Values) == 0 {
+			for _, nm := range vs.Names {
+				if info.Defs[nm] == o {
+					found = true
+				}
+			}
+		}
+		return true
+	})
+	return found
 }
